@@ -60,6 +60,9 @@ def shard_fn(shard, nshards, seed, tier, exe, ntexts, ntrees):
             if mode == 2 and b"\0" in t:
                 mode = 1
             cmds.append("LP %d %d %d x%s" % (flags, depth, mode, t.hex()))
+            if mode == 1 and (len(cmds) % 3) == 0:
+                # the same text fed incrementally: numbers straddle calls, every call is monitored
+                cmds.append("LPC %d %d %d x%s" % (flags, depth, 1 + (len(cmds) // 3) % 7, t.hex()))
         for ti, (toks, flags) in enumerate(trees):
             cmds += ["B 0 " + " ".join(toks), "LS 0 %d" % flags]
             k = ti % 6
@@ -92,7 +95,7 @@ def shard_fn(shard, nshards, seed, tier, exe, ntexts, ntrees):
             raise core.Inconclusive("locale configuration %s not in effect: %s (LOCPATH=%s)" % (CONFIGS[cfg], lines[0], locale_synth.LOCDIR))
         for ci, (cmd, ln, bl) in enumerate(zip(cmds[1:-1], lines[1:-1], base[1:-1]), 1):
             op = cmd.split()[0]
-            if op not in ("LP", "LS"):
+            if op not in ("LP", "LS", "LPC"):
                 continue
             sh.evaluations += 1
             pre = []
@@ -110,13 +113,13 @@ def shard_fn(shard, nshards, seed, tier, exe, ntexts, ntrees):
             same, fmt, sd, live, created, freed, foreign = map(int, m.groups())
             key = None
             what = ""
-            if op == "LP":
+            if op in ("LP", "LPC"):
                 err = int(res.split()[1])
                 outcome = "outcome-%d" % err
             else:
                 outcome = "serialize"
             if res != bres:
-                key, what = "result-depends-on-locale/%s" % ("parse" if op == "LP" else "serialize"), "under %s: %s ; in the C locale: %s" % (CONFIGS[cfg], res[:160], bres[:160])
+                key, what = "result-depends-on-locale/%s" % ("parse" if op == "LP" else "parse-incremental" if op == "LPC" else "serialize"), "under %s: %s ; in the C locale: %s" % (CONFIGS[cfg], res[:160], bres[:160])
             elif not same:
                 key, what = "thread-locale-changed/" + outcome, "uselocale(NULL) differs after the call (%s)" % CONFIGS[cfg]
             elif not fmt or not sd:
